@@ -277,6 +277,7 @@ type Op struct {
 	CancelSrc  int `json:"cancel_src,omitempty"`
 	CancelStep int `json:"cancel_step,omitempty"` // fire when the global step counter reaches this value (sweep)
 	CancelAt   D   `json:"cancel_at,omitempty"`   // else fire this long after the op started
+	ProbeStep  int `json:"probe_step,omitempty"`  // async: a reader held until this scheduler step then polls IsDone/Done twice (sweep)
 
 	// sleep / standalone
 	Dur    D    `json:"dur,omitempty"`
